@@ -12,7 +12,7 @@ from vp.world import (BINDING_HTTP_POST, BINDING_HTTP_REDIRECT, BINDING_SOAP, BI
 TMP = [None]
 _c = {}
 ALPH = ['a', ' ', '"', "'", '<', '>', '&', '=', '+', '%', '#', ';', '\n', '\r', '\t', 'é', '€', '\U0001F600', '\x01',
-        '{', '}', '/', '?']
+        '{', '}', '/', '?', '\\', '$']
 FIXED = ['&Signature=x', '&SAMLRequest=x', '"/><input name="x', '%26SigAlg%3D', 'https://sp.example/return?next=%2Fhome&a=b',
          '{action}', '{0}', '{{x}}', '%', '%zz', 'x' * 4096, '</form><script>alert(1)</script>', "' onfocus='x", 'a&amp;b', '&#38;']
 DESTS = ['https://idp.example/sso', 'https://idp.example/sso?tenant=a%20b&x=1']
@@ -126,6 +126,9 @@ def messages():
                 forge.request(env.BASE).replace('><', '>\n  <')))
     out.append(('forged-no-decl-newlines', 'SAMLRequest', 'logout_request',
                 forge.request(env.BASE, kind='LogoutRequest').replace('alice', 'al\nice\n')))
+    for i, txt in enumerate(('C:\\temp\\new', 'EXAMPLE\\jdoe \\\\fileserver\\home', 'group\\1 \\g&lt;0&gt; $1 ${x}', '%s %(x)s {0} {x}', 'a\\')):
+        out.append(('forged-backslash-%d' % i, 'SAMLRequest', 'logout_request',
+                    forge.request(env.BASE, kind='LogoutRequest').replace('alice', txt)))
     _c['msgs'] = out
     return out
 
